@@ -36,6 +36,8 @@ pub enum TCall {
     /// `words.len()` must be a multiple of `n`
     Pixels { n: u8, words: Vec<u16> },
     Repeat { pixel: Vec<u16>, count: u32 },
+    /// a pixel source that is NOT fused: yields `words`, then `None`, and would yield `after` if polled again
+    PixelsUnfused { n: u8, words: Vec<u16>, after: Vec<u16> },
 }
 impl TCall {
     /// the words the device must latch for this call, in order, with the DC level
@@ -46,7 +48,7 @@ impl TCall {
                 v.extend(args.iter().map(|a| (true, *a as u16)));
                 v
             }
-            TCall::Pixels { words, .. } => words.iter().map(|w| (true, *w)).collect(),
+            TCall::Pixels { words, .. } | TCall::PixelsUnfused { words, .. } => words.iter().map(|w| (true, *w)).collect(),
             TCall::Repeat { pixel, count } => {
                 let mut v = Vec::with_capacity(pixel.len() * *count as usize);
                 for _ in 0..*count {
@@ -59,7 +61,7 @@ impl TCall {
     pub fn n_expected(&self) -> u64 {
         match self {
             TCall::Cmd { args, .. } => 1 + args.len() as u64,
-            TCall::Pixels { words, .. } => words.len() as u64,
+            TCall::Pixels { words, .. } | TCall::PixelsUnfused { words, .. } => words.len() as u64,
             TCall::Repeat { pixel, count } => pixel.len() as u64 * *count as u64,
         }
     }
@@ -94,6 +96,46 @@ where
             3 => i.send_pixels::<3>(px::<I::Word, 3>(words)),
             _ => panic!("unsupported pixel width"),
         },
+        TCall::PixelsUnfused { n, words, after } => {
+            // the stream ends at the first None; a source polled again after that hands out `after`
+            // (bounded: at most 64 polls after the end, then it panics with the budget sentinel)
+            fn unfused<'a, W: Wd, const N: usize>(words: &'a [u16], after: &'a [u16]) -> impl Iterator<Item = [W; N]> + 'a {
+                let mut first = words.chunks_exact(N);
+                let mut second = after.chunks_exact(N).cycle();
+                let mut ended = false;
+                let mut polls_after_end = 0u32;
+                std::iter::from_fn(move || {
+                    let mk = |c: &[u16]| {
+                        let mut a = [W::from16(0); N];
+                        for (k, w) in c.iter().enumerate() {
+                            a[k] = W::from16(*w);
+                        }
+                        a
+                    };
+                    if !ended {
+                        match first.next() {
+                            Some(c) => Some(mk(c)),
+                            None => {
+                                ended = true;
+                                None
+                            }
+                        }
+                    } else {
+                        polls_after_end += 1;
+                        if polls_after_end > 64 {
+                            std::panic::panic_any(crate::env::BudgetExhausted("pixel source polled more than 64 times after it ended"));
+                        }
+                        second.next().map(mk)
+                    }
+                })
+            }
+            match n {
+                1 => i.send_pixels::<1>(unfused::<I::Word, 1>(words, after)),
+                2 => i.send_pixels::<2>(unfused::<I::Word, 2>(words, after)),
+                3 => i.send_pixels::<3>(unfused::<I::Word, 3>(words, after)),
+                _ => panic!("unsupported pixel width"),
+            }
+        }
         TCall::Repeat { pixel, count } => match pixel.len() {
             1 => i.send_repeated_pixel::<1>(one::<I::Word, 1>(pixel), *count),
             2 => i.send_repeated_pixel::<2>(one::<I::Word, 2>(pixel), *count),
